@@ -72,6 +72,8 @@ pub tracked struct Fx<T> {
     /// number of times this call dropped / moved-out the future's local value
     pub ghost local_drops: int,
     pub ghost local_reads: int,
+    /// number of times this call destroyed a (small) value stored inside a signal (Signal::load_and_drop)
+    pub ghost sig_drops: int,
 }
 
 impl<T> Fx<T> {
@@ -86,6 +88,7 @@ impl<T> Fx<T> {
         &&& self.listed == Set::<SignalTerminator<T>>::empty()
         &&& self.local_drops == 0
         &&& self.local_reads == 0
+        &&& self.sig_drops == 0
         &&& self.roles == Map::<SignalTerminator<T>, Role>::empty()
     }
     pub open spec fn same_effects_but_local(self, o: Fx<T>) -> bool {
@@ -104,6 +107,7 @@ impl<T> Fx<T> {
         &&& self.terminated == o.terminated
         &&& self.local_drops == o.local_drops
         &&& self.local_reads == o.local_reads
+        &&& self.sig_drops == o.sig_drops
     }
     /// everything except the critical-section list is unchanged
     pub open spec fn same_effects(self, o: Fx<T>) -> bool {
@@ -114,6 +118,7 @@ impl<T> Fx<T> {
         &&& self.terminated == o.terminated
         &&& self.local_drops == o.local_drops
         &&& self.local_reads == o.local_reads
+        &&& self.sig_drops == o.sig_drops
         &&& self.roles == o.roles
     }
 }
@@ -324,7 +329,11 @@ impl<T> Signal<T> {
     pub fn will_wake(&self, waker: &Waker) -> (b: bool) ensures b == self.wakes(*waker) { unimplemented!() }
     /// T8 (sender side, small T): drops the value still stored in the signal
     #[verifier::external_body]
-    pub unsafe fn load_and_drop(&self) requires /*@tag:O-size-dispatch C04 C05*/ !big::<T>() { unimplemented!() }
+    pub unsafe fn load_and_drop(&self, Tracked(fx): Tracked<&mut Fx<T>>)
+        requires /*@tag:O-size-dispatch C04 C05*/ !big::<T>(),
+        ensures final(fx).sig_drops == old(fx).sig_drops + 1, final(fx).cs == old(fx).cs, final(fx).same_effects_but_local(*old(fx)),
+            final(fx).local_drops == old(fx).local_drops, final(fx).local_reads == old(fx).local_reads, final(fx).held == old(fx).held, final(fx).listed == old(fx).listed,
+    { unimplemented!() }
     /// T8 (small T): the value is in the signal itself -- the delivered value of a receiver signal, or the
     /// value a never-published sender signal still owns
     #[verifier::external_body]
@@ -342,7 +351,7 @@ impl<T> SignalTerminator<T> {
         ensures final(fx).used == old(fx).used.insert((self, Role::Receiver)), final(fx).sent == old(fx).sent.push((self, data)),
             final(fx).popped == old(fx).popped, final(fx).cs == old(fx).cs, final(fx).taken == old(fx).taken,
             final(fx).terminated == old(fx).terminated, final(fx).held == old(fx).held, final(fx).listed == old(fx).listed,
-            final(fx).local_drops == old(fx).local_drops, final(fx).local_reads == old(fx).local_reads, final(fx).roles == old(fx).roles,
+            final(fx).local_drops == old(fx).local_drops, final(fx).local_reads == old(fx).local_reads, final(fx).roles == old(fx).roles, final(fx).sig_drops == old(fx).sig_drops,
     { unimplemented!() }
     /// T3
     #[verifier::external_body]
@@ -352,7 +361,7 @@ impl<T> SignalTerminator<T> {
             final(fx).used == old(fx).used.insert((self, Role::Sender)), final(fx).taken == old(fx).taken.push(self),
             final(fx).popped == old(fx).popped, final(fx).cs == old(fx).cs, final(fx).sent == old(fx).sent,
             final(fx).terminated == old(fx).terminated, final(fx).held == old(fx).held, final(fx).listed == old(fx).listed,
-            final(fx).local_drops == old(fx).local_drops, final(fx).local_reads == old(fx).local_reads, final(fx).roles == old(fx).roles,
+            final(fx).local_drops == old(fx).local_drops, final(fx).local_reads == old(fx).local_reads, final(fx).roles == old(fx).roles, final(fx).sig_drops == old(fx).sig_drops,
     { unimplemented!() }
     /// T4
     #[verifier::external_body]
@@ -360,7 +369,7 @@ impl<T> SignalTerminator<T> {
         ensures final(fx).terminated == old(fx).terminated.push(*self),
             final(fx).popped == old(fx).popped, final(fx).cs == old(fx).cs, final(fx).sent == old(fx).sent,
             final(fx).taken == old(fx).taken, final(fx).used == old(fx).used, final(fx).held == old(fx).held, final(fx).listed == old(fx).listed,
-            final(fx).local_drops == old(fx).local_drops, final(fx).local_reads == old(fx).local_reads, final(fx).roles == old(fx).roles,
+            final(fx).local_drops == old(fx).local_drops, final(fx).local_reads == old(fx).local_reads, final(fx).roles == old(fx).roles, final(fx).sig_drops == old(fx).sig_drops,
     { unimplemented!() }
     #[verifier::external_body]
     pub fn eq(&self, other: &Signal<T>) -> (r: bool) ensures r == (*self == other.term()) { unimplemented!() }
